@@ -60,9 +60,10 @@ def obligations(ctx, tier):
                                  (lambda A=A: lambda W, env: ("some", W.wrap(A, 0)))()))
                 for r in (2, 10, 16, 255):
                     reps.append(("r%d_digits" % r, (lambda r=r: lambda W: {0: B_([1, 0, 1]), 1: PI("u32", r)})(),
-                                 expect(("ret_call", "from_buf_radix_internal::<N, false, %s>" % be, sl))))
+                                 expect(("ret_call", "from_buf_radix_internal::<N, false, %s>" % be,
+                                         "from_buf_radix_internal::<N, false, %s>" % ("false" if be == "true" else "true")))))
                 other = "from_le_slice" if sl == "from_be_slice" else "from_be_slice"
-                reps.append(("r256_bytes", lambda W: {0: B_([1, 2, 3]), 1: PI("u32", 256)}, expect(("ret_call", sl, other, "from_buf_radix_internal"))))
+                reps.append(("r256_bytes", lambda W: {0: B_([1, 2, 3]), 1: PI("u32", 256)}, expect(("ret_call", sl, other))))
                 out += core.g_row(K, PROP, inh(A, m), reps)
             # ---- trait forwarding
             out.append(core.f_row(K, PROP, tr(A, "core::str::FromStr", [], "from_str"), call(inh(A, "from_str_radix"), P(0), lit("u32", 10))))
